@@ -970,6 +970,13 @@ func isNilTerm(t *Term) bool { return t.isInt() && t.ival.Sign() == 0 }
 // types compare by reference; boxed structs of this package compare fieldwise.
 func (fx *FuncExec) ifaceEq(st *State, reach *Term, x, y VIface) *Term {
 	ts := fx.ts
+	// comparison with the nil interface looks at the dynamic type only
+	if isNilTerm(y.tag) {
+		return ts.Eq(x.tag, ts.Int(0))
+	}
+	if isNilTerm(x.tag) {
+		return ts.Eq(y.tag, ts.Int(0))
+	}
 	base := ts.And(ts.Eq(x.tag, y.tag), ts.Eq(x.val, y.val))
 	// boxed struct types: equal tag and fieldwise equal payloads also count
 	var alts []*Term
@@ -977,7 +984,7 @@ func (fx *FuncExec) ifaceEq(st *State, reach *Term, x, y VIface) *Term {
 		if _, ok := t.Underlying().(*types.Struct); !ok {
 			continue
 		}
-		if !types.Comparable(t) {
+		if !types.Comparable(t) || !allBasicFields(t) {
 			continue
 		}
 		a := fx.loadField(st, reach, "box:"+typeKey(t), x.val, t)
@@ -1265,4 +1272,17 @@ func (fx *FuncExec) globalValue(st *State, name string, t types.Type) Value {
 		return VStruct{t, []Value{VInt{ts.Int(gi.code)}, VInt{ts.Int(gi.frame)}, VStr{ts.Int(fx.eng.stringID(gi.msg))}}}
 	}
 	return nil
+}
+
+func allBasicFields(t types.Type) bool {
+	st, ok := t.Underlying().(*types.Struct)
+	if !ok {
+		return false
+	}
+	for i := 0; i < st.NumFields(); i++ {
+		if _, ok := st.Field(i).Type().Underlying().(*types.Basic); !ok {
+			return false
+		}
+	}
+	return true
 }
